@@ -427,6 +427,7 @@ impl<'tcx> Cx<'tcx> {
         let is_zst = match t.kind() {
             ty::Tuple(e) => e.is_empty(),
             ty::Adt(def, _) => def.is_struct() && def.all_fields().next().is_none(),
+            ty::Closure(..) => tcx.layout_of(env.as_query_input(t)).map(|l| l.is_zst()).unwrap_or(false),
             _ => false,
         };
         if is_zst {
@@ -1205,7 +1206,27 @@ fn dump_crate<'tcx>(tcx: TyCtxt<'tcx>, name: &str) -> J {
             ("name", J::Str(tcx.opt_item_name(rd).map(|n| n.to_string()).unwrap_or_else(|| "{anon}".to_string()))),
             ("derived", J::Bool(false)),
             ("body", cx.body(rd, &mono)),
-            ("promoted", J::Arr(vec![])),
+            (
+                "promoted",
+                // promoted constants of the library body, instantiated like the body itself
+                if matches!(inst.def, ty::InstanceKind::Item(_)) && !tcx.is_constructor(rd) {
+                    J::Arr(
+                        tcx.promoted_mir(rd)
+                            .iter()
+                            .map(|pb| {
+                                let pm = inst.instantiate_mir_and_normalize_erasing_regions(
+                                    tcx,
+                                    TypingEnv::fully_monomorphized(),
+                                    ty::EarlyBinder::bind(pb.clone()),
+                                );
+                                cx.body(rd, &pm)
+                            })
+                            .collect(),
+                    )
+                } else {
+                    J::Arr(vec![])
+                },
+            ),
         ]));
     }
     cx.mono.set(false);
@@ -1236,7 +1257,10 @@ fn dump_crate<'tcx>(tcx: TyCtxt<'tcx>, name: &str) -> J {
             ("name", J::Str(tcx.opt_item_name(rd).map(|n| n.to_string()).unwrap_or_else(|| "{anon}".to_string()))),
             ("derived", J::Bool(false)),
             ("body", cx.body(rd, body)),
-            ("promoted", J::Arr(vec![])),
+            (
+                "promoted",
+                if !tcx.is_constructor(rd) { J::Arr(tcx.promoted_mir(rd).iter().map(|pb| cx.body(rd, pb)).collect()) } else { J::Arr(vec![]) },
+            ),
         ]));
     }
 
